@@ -300,8 +300,9 @@ def main():
                 if o.get('listing') and fkey not in failing_functions:
                     # the clause fixes the ORDER of a listing, the property only its elements (DESIGN 9.9): without an input on
                     # which the elements differ (native evaluation compares listings as bags) this is not a violation
-                    undecided.append(f"{o['id']}: the sequence clause of a listing is no longer provable, its elements agree on every "
-                                     f"input evaluated natively (order of the listing changed, or proof lost)")
+                    undecided.append(f"{o['id']}: the clause fixes the order of a listing or one spelling of a text and is no longer "
+                                     f"provable; elements / meaning agree on every input evaluated natively (order or spelling "
+                                     f"changed, or proof lost)")
                 elif was_proved:
                     rec_ = {'kind': 'obligation', 'function': fkey, 'contract': con.name, 'obligation': o['id'],
                             'solver_output': o, 'note': 'obligation group was discharged on the unchanged tree (ledger) and is refuted now; '
